@@ -38,4 +38,19 @@ CLAIMS = {
               "init/compare/unsafe_hash as documented; duration/repetition strategies are value objects shared on purpose."),
         technique="static analysis: symbolic evaluation of every copy() against dataclass metadata; loop summaries; eq/hash kind from decorator parameters",
     ),
+    "C01": dict(
+        text=("Decides the local facts from which relation-based timing follows by induction over the acyclic reference "
+              "order: the relation equations of RelationLink.get_start_time are tabulated over (reference present/absent) x "
+              "every RelationType member and compared with the specified affine forms; end = start + duration in every "
+              "definition; all 27 concrete operation classes ask their own link with their own duration and their link "
+              "getter/setter use one field; MultiRelationLink picks the latest-ending member of the whole group and "
+              "applies the same equations; the implicit predecessor is searched deepest-first with an any-channel match "
+              "over the whole argument; add_to_graph appends exactly one node on every feasible path with graph parent == "
+              "relation reference; nesting and unrolling hand the block / group link to exactly the operations without "
+              "relation. Each is a necessary condition: breaking it changes a reported time for some build program."),
+        note=("Not decided: numeric agreement of reported times under memoisation (C03); JOINED_END handed to first children "
+              "of a nested block uses the child's duration (unreachable through DeclarativeCircuit.add, DESIGN 5b). Trusted: "
+              "the specified equations; acyclicity of references (an operation can only refer to an earlier one)."),
+        technique="static analysis: affine/Boolean normal forms of the relation equations, loop summaries, feasible-path enumeration of add_to_graph",
+    ),
 }
